@@ -49,6 +49,13 @@ pub struct Case {
     /// the destination accepts at most this many bytes per write call
     #[serde(default)]
     pub chunk: Option<u16>,
+    /// the destination already holds this many bytes before the modelled part (0, or around / above 4 GiB)
+    #[serde(default)]
+    pub origin: u8,
+}
+
+pub fn origin_of(sel: u8) -> u64 {
+    [0, 0, 0, 1 << 32, (1 << 32) + 4096, (1 << 32) - 8, 3 * (1u64 << 32) + 12345, 1 << 40][sel as usize % 8]
 }
 
 pub fn check(c: &Case) -> Verdict {
@@ -60,7 +67,7 @@ pub fn check(c: &Case) -> Verdict {
         P0::Beyond(k) => c.prefill.len() as u64 + k as u64 + 1,
     };
     let orig = c.prefill.clone();
-    let dest = Dest::new(c.prefill.clone(), p0).with_max_write(c.chunk.map(|n| n as usize));
+    let dest = Dest::new(c.prefill.clone(), p0).with_max_write(c.chunk.map(|n| n as usize)).with_bias(origin_of(c.origin));
     let mut dest_handle = dest.clone();
     let mut buffer = Buffer::with_capacity(0);
     buffer.write_all(&vec![0x5a; c.pre as usize]);
@@ -162,6 +169,9 @@ pub fn check(c: &Case) -> Verdict {
         if data.len() < keep || data[..keep] != orig[..keep] {
             bad!("bytes-before-start-modified", "step {step} {op:?}: bytes before the starting position changed");
         }
+        if let Some((at, len)) = dest.low_writes().first() {
+            bad!("bytes-before-start-modified", "step {step} {op:?}: {len} bytes were written at absolute position {at:#x}, below the destination's origin {:#x}", origin_of(c.origin));
+        }
         if (p0 as usize) > orig.len() && data.len() > orig.len() {
             let gap_end = (p0 as usize).min(data.len());
             if data[orig.len()..gap_end].iter().any(|b| *b != 0) {
@@ -218,8 +228,9 @@ pub fn case_strategy() -> impl Strategy<Value = Case> {
         0u8..9,
         proptest::collection::vec(op_strategy(), 0..40),
         proptest::option::weighted(0.35, prop_oneof![Just(1u16), 1u16..16, 1u16..300]),
+        0u8..8,
     )
-        .prop_map(|(prefill, p0, pre, index_length, ops, chunk)| Case { prefill, p0, pre, index_length, ops, chunk })
+        .prop_map(|(prefill, p0, pre, index_length, ops, chunk, origin)| Case { prefill, p0, pre, index_length, ops, chunk, origin })
 }
 
 #[derive(Debug, Clone, PartialEq, Eq, Hash, Serialize, Deserialize)]
@@ -235,6 +246,9 @@ pub struct DumpCase {
     /// the destination accepts at most this many bytes per write call
     #[serde(default)]
     pub chunk: Option<u16>,
+    /// see `origin_of`
+    #[serde(default)]
+    pub origin: u8,
 }
 
 /// Dump level: whole dumps into a pre-filled destination positioned anywhere.
@@ -267,7 +281,7 @@ pub fn check_dump(c: &DumpCase) -> Verdict {
     let orig = c.prefill.clone();
     let mut w = make_writer(t.pid, &opts);
     let fault = c.fail_at.map(|k| Fault::ErrAt(k as u64)).unwrap_or(Fault::None);
-    let mut dest = Dest::new(orig.clone(), p0).with_fault(fault).with_max_write(c.chunk.map(|n| n as usize));
+    let mut dest = Dest::new(orig.clone(), p0).with_fault(fault).with_max_write(c.chunk.map(|n| n as usize)).with_bias(origin_of(c.origin));
     let out = run_dump(&mut w, &mut dest);
     let data = dest.data();
     macro_rules! bad {
@@ -276,6 +290,9 @@ pub fn check_dump(c: &DumpCase) -> Verdict {
     let keep = (p0 as usize).min(orig.len());
     if data.len() < keep || data[..keep] != orig[..keep] {
         bad!("bytes-before-start-modified", "bytes before the starting position {p0} changed");
+    }
+    if let Some((at, len)) = dest.low_writes().first() {
+        bad!("bytes-before-start-modified", "{len} bytes were written at absolute position {at:#x}, below the destination's origin {:#x}", origin_of(c.origin));
     }
     if (p0 as usize) > orig.len() && data.len() > orig.len() && data[orig.len()..(p0 as usize).min(data.len())].iter().any(|b| *b != 0) {
         bad!("bytes-before-start-modified", "gap before the starting position is not zero");
@@ -335,9 +352,9 @@ pub fn run(ctx: &mut LaneCtx) {
         SubSpec {
             name: "dump-level",
             cases: (720, 10_000),
-            rule: "whole dumps of generated targets (C01 scenarios) into a destination pre-filled with random bytes and positioned at 0/1/mid/len/beyond and optionally accepting only a bounded number of bytes per write call, fault free or with an I/O error injected at a generated destination call; oracle = on success destination[p0..p0+len) equals the returned image, nothing before p0 or beyond the image changes, final position p0+len; on abort nothing before p0 changes and what was written is a consistent truncated image; non-trivial = p0 > 0; distinct = hash of case",
-            strategy: (crate::props::c01::case_strategy(6), proptest::collection::vec(any::<u8>(), 0..5000), prop_oneof![Just(P0::Zero), Just(P0::One), Just(P0::Mid), Just(P0::Len), (0u8..40).prop_map(P0::Beyond)], proptest::option::weighted(0.4, any::<u8>()), any::<bool>(), proptest::option::weighted(0.35, prop_oneof![1u16..64, 64u16..5000]))
-                .prop_map(|(scenario, prefill, p0, fail_at, empty_env, chunk)| DumpCase { scenario, prefill, p0, fail_at, empty_env, chunk })
+            rule: "whole dumps of generated targets (C01 scenarios) into a destination pre-filled with random bytes and positioned at 0/1/mid/len/beyond - also when that position is around or above 4 GiB in the destination (sparse origin) - and optionally accepting only a bounded number of bytes per write call, fault free or with an I/O error injected at a generated destination call; oracle = on success destination[p0..p0+len) equals the returned image, nothing before p0 or beyond the image changes, final position p0+len; on abort nothing before p0 changes and what was written is a consistent truncated image; non-trivial = p0 > 0; distinct = hash of case",
+            strategy: (crate::props::c01::case_strategy(6), proptest::collection::vec(any::<u8>(), 0..5000), prop_oneof![Just(P0::Zero), Just(P0::One), Just(P0::Mid), Just(P0::Len), (0u8..40).prop_map(P0::Beyond)], proptest::option::weighted(0.4, any::<u8>()), any::<bool>(), proptest::option::weighted(0.35, prop_oneof![1u16..64, 64u16..5000]), 0u8..8)
+                .prop_map(|(scenario, prefill, p0, fail_at, empty_env, chunk, origin)| DumpCase { scenario, prefill, p0, fail_at, empty_env, chunk, origin })
                 .boxed(),
             max_shrink_iters: 100,
             log_current: true,
@@ -349,7 +366,7 @@ pub fn run(ctx: &mut LaneCtx) {
         SubSpec {
             name: "dirsection-history",
             cases: (40_000, 2_000_000),
-            rule: "histories (<=40 ops) of grow / flush / flush-with-entry / entry-only on DirSection over an in-memory Write+Seek destination (optionally accepting only 1..300 bytes per write call) pre-filled with random bytes and positioned at 0, 1, mid, len or beyond len; file model checked after every op; non-trivial = starting position > 0 and a directory entry emitted after >= 2 flushes; distinct = hash of case",
+            rule: "histories (<=40 ops) of grow / flush / flush-with-entry / entry-only on DirSection over an in-memory Write+Seek destination (optionally accepting only 1..300 bytes per write call) pre-filled with random bytes and positioned at 0, 1, mid, len or beyond len (plus an origin of 0, 2^32-8, 2^32, 2^32+4096, 3*2^32+12345 or 2^40 bytes already in the destination); file model checked after every op; non-trivial = starting position > 0 and a directory entry emitted after >= 2 flushes; distinct = hash of case",
             strategy: case_strategy().boxed(),
             max_shrink_iters: 4096,
             log_current: false,
